@@ -125,6 +125,8 @@ inline bool plan_effect(Model const& M, ModelTraits const& T, Op const& op, Effe
 		switch(op.kind) {
 		case O_CTOR_DEFAULT: case O_CTOR_EXT: case O_CTOR_EXT_ELEM: case O_CTOR_COPY: case O_CTOR_MOVE: case O_DESTROY:
 		case O_ASSIGN_COPY: case O_ASSIGN_MOVE: case O_ASSIGN_SELF: case O_ELEM_WRITE: case O_READ: break;
+		case O_SAVE: if(!T.serialization || op.var != 0) return false; break;  // the 0-D array itself (it has no views)
+		case O_LOAD: if(!T.serialization) return false; break;
 		default: return false;
 		}
 		if(op.ca.n || op.cb.n) return false;
@@ -689,7 +691,10 @@ inline bool plan_effect(Model const& M, ModelTraits const& T, Op const& op, Effe
 	case O_SAVE: {
 		if(!T.serialization || op.file < 0 || op.file >= NFILE || op.arch < 0 || op.arch > 2) return false;
 		MView v;
-		if(!model_view(M, T, op.da, op.a, op.ca, v)) return false;
+		if(D == 0) {  // a 0-D array: one element and no extents
+			if(!slot_ok(0, op.a, T) || !M.at(0, op.a).alive) return false;
+			v = whole(M.at(0, op.a));
+		} else if(!model_view(M, T, op.da, op.a, op.ca, v)) return false;
 		if(op.var < 0 || op.var > 3) return false;
 		if(op.var == 3 && v.D < 2) return false;         // var 3 saves through a read-only view (its own serialize; 1-D does not compile at the pinned commit)
 		if(op.var != 1 && op.var != 3 && op.ca.n != 0) return false;  // var 0 saves the owning array itself, var 2 the same array re-indexed to base 1
